@@ -44,7 +44,7 @@ TABLE = {
     ("Watcher::store_appointment", "DBM::update_appointment"): ("pn4", ""),
     ("Watcher::store_appointment", "DBM::store_appointment"): ("pn3", ""),
     ("Watcher::store_triggered_appointment", "DBM::store_appointment"): ("pn3", ""),
-    ("Watcher::handle_breaches", "DBM::load_appointment"): ("undecided", "uuid listed in the previous DBM section; the only concurrent remover is the API-side delete of a freshly rejected trigger for the same locator, which needs the same dispute txid in two blocks"),
+    ("Watcher::handle_breaches", "DBM::load_appointment"): ("pn4", ""),
     ("Locator::new", "TryInto<U>>::try_into"): ("ok", "slice of constant length LOCATOR_LEN into [u8; LOCATOR_LEN]"),
     # plugin
     ("UserId as std::convert::TryFrom<serde_json::Value>>::try_from", "Vec::<T, A>::pop"): ("ok", "guarded by param_count == 1"),
